@@ -22,19 +22,19 @@ def run(tier: str, keep: bool = False) -> int:
     q = r.quick
     fam1 = 'Numbered({ [SoloBase(2, 1, 2) EXCEPT !.mode = m, !.closure = c, !.immNak = i] : m \\in {"ACK", "UNACK"}, c \\in BOOLEAN, i \\in BOOLEAN })'
     fam2 = 'Numbered({ [SoloBase(2, 1, 2) EXCEPT !.mode = m] : m \\in {"ACK", "UNACK"} })'
-    r.solo("dstwide", "D", fam2, DST, 3 if q else 4, ["C10"], limit=4000 if q else 150000)
-    r.solo("dstdeep", "D", fam1, ["fd", "fdodd", "eof", "eofcancel", "ack", "poll", "tick", "cancel", "alien"], 5 if q else 6, ["C10"],
-           pre=[["md"], ["fd", "eof"]], limit=5000 if q else 150000)
-    r.solo("srcwide", "S", fam2, SRC, 3 if q else 4, ["C10"], pre=[["put", "putodd"]], limit=4000 if q else 150000)
+    r.solo("dstwide", "D", fam2, DST, 3 if q else 4, ["C10"], limit=4000 if q else 60000)
+    r.solo("dstdeep", "D", fam1, ["fd", "fdodd", "eof", "eofcancel", "ack", "poll", "tick", "cancel", "alien"], 5, ["C10"],
+           pre=[["md"], ["fd", "eof"]], limit=5000 if q else 60000)
+    r.solo("srcwide", "S", fam2, SRC, 3 if q else 4, ["C10"], pre=[["put", "putodd"]], limit=4000 if q else 60000)
     r.solo("srcdeep", "S", fam1, ["poll", "nak", "nakodd", "ack", "fin", "cancel", "tick", "alien"], 5 if q else 6, ["C10"],
-           pre=[["put"], ["poll"], ["poll"]], limit=5000 if q else 150000)
+           pre=[["put"], ["poll"], ["poll"]], limit=5000 if q else 60000)
     # the public reset() in the middle of a transaction (queued PDUs, armed timers), then a new transaction on the same handler
     # PDUs carrying another transaction's sequence number while a transaction is running
-    r.solo("dststale", "D", fam2, ["stale", "fd", "eof", "poll", "ack"], 4 if q else 5, ["C10"], pre=[["md", "fd"]], limit=3000 if q else 150000)
-    r.solo("dstreset", "D", fam2, ["reset", "md", "fd", "eof", "poll", "tick"], 5 if q else 6, ["C10"], pre=[["md"], ["fd", "eof"]],
-           limit=3000 if q else 150000)
-    r.solo("srcreset", "S", fam2, ["reset", "put", "poll", "cancel", "nak", "tick"], 5 if q else 6, ["C10"], pre=[["put"], ["poll"]],
-           limit=3000 if q else 150000)
+    r.solo("dststale", "D", fam2, ["stale", "fd", "eof", "poll", "ack"], 4 if q else 6, ["C10"], pre=[["md", "fd"]], limit=3000 if q else 40000)
+    r.solo("dstreset", "D", fam2, ["reset", "md", "fd", "eof", "poll", "tick"], 5 if q else 7, ["C10"], pre=[["md"], ["fd", "eof"]],
+           limit=3000 if q else 40000)
+    r.solo("srcreset", "S", fam2, ["reset", "put", "poll", "cancel", "nak", "tick"], 5 if q else 7, ["C10"], pre=[["put"], ["poll"]],
+           limit=3000 if q else 40000)
     n = 400 if q else 8000
     r.driver("src_random", n, ["C10"])
     r.driver("dst_random", n, ["C10"])
